@@ -416,7 +416,7 @@ def run(ctx: Ctx) -> None:
     # ---- R12: the path splitter keeps the whole remainder ----
     rep.rule("C11.R12", "abstract evaluation of the path splitter used by the overlap detector: '/s1/s2/../sn' splits into s1 and '/s2/../sn' for every depth (a truncated "
                         "remainder hides overlaps below the second level)")
-    sp = prog.funcs.get("dds.structures_utils.DDSPathUtils.split")
+    sp = prog.func("dds.structures_utils.DDSPathUtils.split")
     if sp is None:
         raise AnchorError("dds.structures_utils.DDSPathUtils.split not found")
     from ..absint import Evaluator as _Ev, Const as _Const
